@@ -229,8 +229,9 @@ def conditional_ancestors(root, target, below=None):
     for i, (n, role) in enumerate(p):
         if not started:
             if n is below:
-                started = True
-            continue
+                started = True   # the arm of `below` itself that leads to the target counts (then vs else of one If are exclusive)
+            else:
+                continue
         if not isinstance(n, dict) or i + 1 >= len(p):
             continue
         child_role = p[i + 1][1]
